@@ -166,7 +166,7 @@ Next ==
             /\ truth' = e.truth /\ hasTruth' = e.hastruth /\ proj' = EmptyProj /\ txns' = <<>> /\ held' = {} /\ acked' = {} /\ kind' = e.kind /\ lossless' = e.lossless /\ lostCommit' = {} /\ fixp' = EmptyProj
        [] e.ev = "rpc" ->
             \* a commit-point request (2PC: Commit) whose outcome the client could not learn
-            LET lost == IF e.cmd = "Commit" /\ e.fault \in {"drop_req", "drop_resp", "crash_before", "crash_after"} THEN {e.req.start} ELSE {}
+            LET lost == IF e.cmd = "Commit" /\ e.fault \in {"drop_req", "drop_resp", "crash_before", "crash_after", "undetermined"} THEN {e.req.start} ELSE {}
             IN IF e.executed
                THEN /\ (kind # "c14rt" => StateRules(e.proj)) /\ HeldRule(e.proj) /\ proj' = e.proj /\ lostCommit' = lostCommit \cup lost
                     /\ UNCHANGED <<truth, txns, held, acked, hasTruth, kind, lossless, fixp>>
